@@ -32,7 +32,14 @@ RULE = (
     'function uses or creates - the output dimension (default, user-given, equal to the data dimension or '
     'to an existing coordinate), argument/temporary/constituent names: per-point coordinates of 9 dtype '
     'kinds incl. variances/strings/vectors/NaN, scalar coordinates, per-point and scalar masks; every shard '
-    'also runs the enumerated collision matrix on a clean series), followed by collapse_plateaus '
+    'also runs the enumerated collision matrix on a clean series; a fifth of the series get repeated entries '
+    '(equal neighbouring coordinate values, with the same reading = 0/0 slope or a different one = infinite '
+    'slope, single or several in a row, anywhere incl. both ends) or NaN / +-inf readings, and every shard '
+    'runs the enumerated tie matrix: 4 coordinate kinds x 2 data kinds x 6 positions (first/last point, inside a '
+    'level, first/last point of a level, isolated point) x {same, same several times, different, different by '
+    'one ulp / one count under a wide tolerance, both next to each other}, two ties in one level, every entry '
+    'twice, all coordinate values equal, NaN / +-inf readings at the same positions and at a tie, with '
+    'min_n_points aimed at the length of the affected run), followed by collapse_plateaus '
     'on what was returned and filter_in_phase on the collapsed values, plus direct '
     'filter_in_phase calls (frequencies 0, tiny, n*ref, ref/n perturbed by {0,0.1,0.49,2,10} x '
     'rtol, either sign of f and ref, float64/float32/int64) and direct collapse_plateaus calls '
@@ -48,6 +55,11 @@ ASSUMPTIONS = [
     '|ref/f - n| < rtol (non-zero integer n); elements kept only through n = 0 on the divisor '
     'side (|ref/f| < rtol) are counted as ambiguous, not judged',
     'RuntimeError from find_plateaus (drift guard) is an allowed outcome and is not judged',
+    'ascending coordinates include equal neighbours (scipp.issorted(..., "ascending") and find_plateaus accept '
+    'them); "slopes stay within the tolerance" is the documented break test |slope| > atol evaluated in IEEE '
+    'arithmetic: dy/0 = +-inf exceeds every tolerance (a break), 0/0 = NaN (repeated entry with the same '
+    'reading) and slopes next to a NaN reading do not exceed it (no break); coordinates and atol themselves '
+    'must be finite (otherwise not judged)',
     '"its points and coordinates unchanged" covers every per-point coordinate and mask of the input whatever '
     'its name (bitwise values, variances, unit, dtype) and the scalar coordinates/masks of the series (kept on '
     'the result or in the bins); a SCALAR coordinate named like the output dimension is replaced by the plateau '
@@ -58,7 +70,8 @@ ASSUMPTIONS = [
 TECHNIQUE = ('runtime monitors (sys.monitoring) on the returns of find_plateaus, collapse_plateaus, '
              'filter_in_phase, direct and chained; segmentation / interval / in-phase reference models')
 LEVEL_TEXT = ('exploration: every observed return of the three functions in a hostile generated workload '
-              '(exact ties and +-1 ulp at the tolerance, min_n_points at run lengths, all coordinate kinds) '
+              '(exact ties and +-1 ulp at the tolerance, min_n_points at run lengths, all coordinate kinds, '
+              'repeated coordinate values with 0/0 and infinite slopes, NaN / infinite readings) '
               'is compared with the selection the documented definition yields: bins = maximal runs, bitwise '
               'contents; interval containment of every point; keep/remove outside a factor-2 band around rtol. '
               'Sampling of an infinite input space: held on the decided executions reported, not a proof.')
@@ -297,8 +310,8 @@ def judge_find(ctx, args, res, exc, diag, origin):
             if set(obs_runs) <= set(runs_all):
                 stage = 'size_filter'
         ctx.violation('find_runs_differ',
-                      f'{len(sizes_obs)} bins of sizes {sizes_obs[:8].tolist()} but the maximal runs with '
-                      f'|slope| <= atol and >= {min_n} points are {runs[:8]} ({len(runs)} runs)',
+                      f'{len(sizes_obs)} bins of sizes {sizes_obs[:8].tolist()} but the maximal runs without a '
+                      f'slope exceeding atol and >= {min_n} points are {runs[:8]} ({len(runs)} runs)',
                       case, stage=stage, **keys)
         return
     if len(runs) == 0:
@@ -1231,6 +1244,221 @@ def collision_cases(rng):
     return out, dim
 
 
+# ---- coordinate ties and non-finite data values -------------------------------------------------------
+# "Ascending" coordinates include equal neighbours (scipp's issorted(..., 'ascending') accepts them; a log
+# entry written twice is the everyday case).  Repeating a point leaves every other slope of the series what
+# it was, so the tolerance classes (slope == atol, +-1 ulp) of the series survive the insertion.
+def _repeat_points(da, idx, new_values=None):
+    """The series with its points taken at ``idx`` (non-decreasing indices = repeated entries); every
+    per-point coordinate / mask / variance follows its point; ``new_values`` {position: value} then
+    overwrites data values (a repeated time stamp with a different reading)."""
+    out = da[da.dim, [int(i) for i in idx]].copy()
+    if new_values:
+        v = out.values
+        for pos, val in new_values.items():
+            v[pos] = val
+    return out
+
+
+def _other_value(y, j, rng):
+    """A data value of the dtype of y that differs from y[j] (taken from the series if it has one)."""
+    cand = np.flatnonzero(y != y[j])
+    if len(cand):
+        return y[int(_pick(rng, cand))]
+    return y[j] + y.dtype.type(1)
+
+
+def inject_ties(rng, da, p_any=0.2):
+    """Random part: repeated entries (same or different reading, single or several in a row, anywhere incl.
+    both ends) and NaN / +-inf readings in a generated series.  Returns (da, tag)."""
+    if rng.random() >= p_any:
+        return da, 'none'
+    dim, n = da.dim, da.sizes[da.dim]
+    y = np.asarray(da.values)
+    isf = y.dtype.kind == 'f'
+    mode = _pick(rng, ['same', 'same', 'same', 'diff', 'mixed', 'mixed', 'nan', 'nan+same', 'inf'])
+    if not isf and mode in ('nan', 'nan+same', 'inf'):
+        mode = 'same'
+    m = int(_pick(rng, [1, 1, 2, 3, 8]))
+    sites = []
+    for _ in range(m):
+        r = rng.random()
+        sites.append(0 if r < 0.15 else n - 1 if r < 0.30 else int(rng.integers(0, n)))
+    sites = sorted(set(sites))
+    if mode in ('nan', 'inf', 'nan+same'):
+        da = da.copy()
+        v = da.values
+        for j in sites:
+            v[j] = np.nan if mode != 'inf' else float(_pick(rng, [np.inf, -np.inf]))
+            if rng.random() < 0.3 and j + 1 < n:
+                v[j + 1] = v[j]
+        if mode != 'nan+same':
+            return da, mode
+        y = np.asarray(da.values)
+    counts = np.ones(n, dtype=np.int64)
+    for j in sites:
+        counts[j] += int(_pick(rng, [1, 1, 1, 2, 4]))
+    idx = np.repeat(np.arange(n), counts)
+    new_values = {}
+    if mode in ('diff', 'mixed'):
+        first = np.concatenate([[0], np.cumsum(counts)[:-1]])
+        for j in sites:
+            for c in range(1, int(counts[j])):
+                if mode == 'diff' or rng.random() < 0.5:
+                    new_values[int(first[j]) + c] = _other_value(y, j, rng)
+    return _repeat_points(da, idx, new_values), mode
+
+
+_TIE_Y = {'float64': ['float64', 'int64', 'float32'], 'float32': ['float32', 'float64'],
+          'int64': ['float64', 'int64'], 'datetime64': ['float64', 'int64']}
+
+
+def _tie_base(rng, xk, yk):
+    """Exactly constant levels of 2..6 points separated by one far-away point each (every level is bounded
+    by two steep slopes; the drift guard cannot fire), irregular coordinate steps."""
+    dim = _pick(rng, DIMS)
+    lens = [int(_pick(rng, [2, 3, 4, 6])) for _ in range(3)]
+    vals, starts = [], []
+    for i, ln in enumerate(lens):
+        starts.append(len(vals))
+        vals += [16 * (2 * i + 1) * (-1) ** i] * ln
+        if i < len(lens) - 1:
+            vals.append(1000 * (i + 1))
+    k = np.array(vals, dtype=np.int64)
+    n = len(k)
+    jx = np.concatenate([[0], np.cumsum(rng.choice([1, 2, 3, 7], size=n - 1))]).astype(np.int64)
+    if xk in ('float64', 'float32'):
+        h = 2.0 ** int(rng.integers(-8, 9))
+        cu = _pick(rng, COORD_UNITS)
+        xvar = sc.array(dims=[dim], values=(float(rng.integers(-1000, 1000)) * h + jx * h).astype(xk),
+                        unit=cu, dtype=xk)
+    elif xk == 'int64':
+        cu = _pick(rng, COORD_UNITS)
+        xvar = sc.array(dims=[dim], values=int(rng.integers(-10**6, 10**6)) + jx * int(_pick(rng, [1, 2, 10])),
+                        unit=cu, dtype='int64')
+    else:
+        cu = _pick(rng, DT_UNITS)
+        x0 = {'ns': 1_700_000_000_000_000_000, 'us': 1_700_000_000_000_000, 'ms': 1_700_000_000_000,
+              's': 1_700_000_000}[cu] + int(rng.integers(-10**6, 10**6))
+        xvar = sc.array(dims=[dim], values=(x0 + jx * int(_pick(rng, [1, 5, 250]))).astype(f'datetime64[{cu}]'),
+                        unit=cu)
+    du = _pick(rng, DATA_UNITS)
+    if yk == 'int64':
+        yv = k * int(_pick(rng, [1, 1, 3]))
+    else:
+        yv = (k.astype(np.float64) * 2.0 ** int(rng.integers(-10, 6))).astype(yk)
+    coords = {dim: xvar}
+    if rng.random() < 0.5:   # something attached to every point: it has to follow its point
+        coords['entry'] = sc.arange(dim, n, unit=None)
+    da = sc.DataArray(sc.array(dims=[dim], values=yv, unit=du, dtype=yk), coords=coords)
+    longest = int(np.argmax(lens))
+    pos = {'start': 0, 'end': n - 1, 'mid': starts[longest] + lens[longest] // 2,
+           'level_first': starts[1], 'level_last': starts[1] + lens[1] - 1, 'isolated': starts[1] - 1}
+    return da, pos, (starts[longest], lens[longest]), du, cu
+
+
+def _tie_kw(rng, da, du, cu, at, a=None):
+    """Tolerance (0 / tiny, float or int, in the derivative unit or a scaled one) and min_n_points aimed at the
+    length of the run that holds position ``at`` (expected runs come from the model, not from the package)."""
+    dim = da.dim
+    yk, xk = str(da.dtype), str(da.coords[dim].dtype)
+    a0 = float(_pick(rng, [0.0, 0.0, 2.0 ** -30, 2.0 ** -12]))
+    given = a is not None
+    a = a0 if a is None else float(a)
+    aunit = sc.Unit(du) / sc.Unit(cu)
+    F = Fraction(1)
+    if rng.random() < 0.25 and not given:
+        u2 = sc.Unit(_pick(rng, _SAME_DIM[du])) / sc.Unit(_pick(rng, _SAME_DIM.get(cu, [cu])))
+        F2 = M.derivative_factor(u2, sc.Unit(du), sc.Unit(cu))
+        if F2 is not None:
+            aunit, F = u2, F2
+    if a == 0.0 and 'float32' not in (xk, yk) and rng.random() < 0.4:
+        atol = sc.scalar(0, unit=aunit, dtype='int64')
+    else:
+        atol = sc.scalar(a, unit=aunit)     # the levels are exactly constant: no slope is near a * F
+    with np.errstate(all='ignore'):
+        s = np.abs(M.slopes(np.asarray(da.values), np.asarray(da.coords[dim].values)))
+        runs = M.runs_from_breaks(s > np.float64(float(Fraction(a) * F)), da.sizes[dim], 1)
+    ln = next((b - a_ for a_, b in runs if a_ <= at < b), 1)
+    mn = int(_pick(rng, [ln, ln, ln, 1, 2, ln + 1, max(1, ln - 1), (ln + 3) // 2]))
+    mn = max(1, min(mn, da.sizes[dim]))
+    r = rng.random()
+    mnv = sc.index(mn) if r < 0.2 else np.int64(mn) if r < 0.3 else mn
+    return {'atol': atol, 'min_n_points': mnv}
+
+
+def tie_cases(rng):
+    """The enumerated part: for every coordinate kind (and a float and a free data kind each) one clean
+    series presented with a repeated entry at every kind of position (first point, last point, inside a level,
+    first / last point of a level, the isolated point between two levels) x (same reading = 0/0 slope; the
+    same several times; a different reading = infinite slope; both next to each other), two ties in one
+    level, every entry twice, all coordinate values equal; and NaN / +-inf readings at the same positions."""
+    out = []
+    for xk in X_KINDS:
+        for yk in (_TIE_Y[xk][0], _pick(rng, _TIE_Y[xk])):
+            da, pos, (l0, ln0), du, cu = _tie_base(rng, xk, yk)
+            dim, n = da.dim, da.sizes[da.dim]
+            y = np.asarray(da.values)
+            with np.errstate(all='ignore'):
+                s0 = np.abs(M.slopes(y, np.asarray(da.coords[dim].values))).astype(np.float64)
+            # a tolerance well above 0 and a quarter of the smallest jump slope: a repeated time stamp with a
+            # reading that differs by the smallest possible amount is still an infinite slope
+            wide = float(np.min(s0[s0 > 0])) / 4.0
+            for pname, j in pos.items():
+                for kind in ('same', 'same_run', 'diff', 'diff_least', 'mixed'):
+                    reps = {'same': 1, 'same_run': int(_pick(rng, [2, 3, 5])), 'diff': 1, 'diff_least': 1,
+                            'mixed': 2}[kind]
+                    counts = np.ones(n, dtype=np.int64)
+                    counts[j] += reps
+                    new = {}
+                    other = _other_value(y, j, rng)
+                    if kind == 'diff':
+                        new[j + 1] = other
+                    elif kind == 'diff_least':
+                        new[j + 1] = y[j] + 1 if y.dtype.kind == 'i' else np.nextafter(
+                            y[j], y.dtype.type(_pick(rng, [-np.inf, np.inf])))
+                    elif kind == 'mixed':
+                        if rng.random() < 0.5:
+                            new[j + 2] = other                  # 0/0 then dy/0
+                        else:
+                            new[j + 1] = new[j + 2] = other     # dy/0 then 0/0
+                    d2 = _repeat_points(da, np.repeat(np.arange(n), counts), new)
+                    out.append((d2, _tie_kw(rng, d2, du, cu, j, a=wide if kind == 'diff_least' else None),
+                                f'{kind} at {pname}'))
+            counts = np.ones(n, dtype=np.int64)
+            counts[l0] += 1
+            counts[l0 + ln0 - 1] += 1
+            d2 = _repeat_points(da, np.repeat(np.arange(n), counts))
+            out.append((d2, _tie_kw(rng, d2, du, cu, l0), 'two ties in one level'))
+            d2 = _repeat_points(da, np.repeat(np.arange(n), 2))
+            out.append((d2, _tie_kw(rng, d2, du, cu, 2 * l0), 'every entry twice'))
+            d2 = da.copy()
+            d2.coords[dim].values[...] = d2.coords[dim].values[int(rng.integers(0, n))]
+            out.append((d2, _tie_kw(rng, d2, du, cu, l0), 'all coordinate values equal'))
+            if y.dtype.kind != 'f':
+                continue
+            for pname, j in pos.items():
+                d2 = da.copy()
+                d2.values[j] = np.nan
+                out.append((d2, _tie_kw(rng, d2, du, cu, l0), f'nan at {pname}'))
+            for bad, label in ((np.nan, 'nan'), (np.inf, 'inf'), (-np.inf, 'inf')):
+                j = pos[_pick(rng, list(pos))]
+                d2 = da.copy()
+                d2.values[j] = bad
+                if rng.random() < 0.5 and j + 1 < n:
+                    d2.values[j + 1] = bad
+                out.append((d2, _tie_kw(rng, d2, du, cu, l0), f'{label} anywhere'))
+            # a NaN reading that is itself a repeated entry (NaN/0), and one next to a repeated entry
+            j = pos['mid']
+            counts = np.ones(n, dtype=np.int64)
+            counts[j] += 1
+            d2 = _repeat_points(da, np.repeat(np.arange(n), counts), {j: np.nan, j + 1: np.nan})
+            out.append((d2, _tie_kw(rng, d2, du, cu, j), 'nan repeated'))
+            d2 = _repeat_points(da, np.repeat(np.arange(n), counts), {j + 1: np.nan})
+            out.append((d2, _tie_kw(rng, d2, du, cu, j), 'nan at a tie'))
+    return out
+
+
 def gen_frequencies(rng):
     """Direct filter_in_phase case."""
     fk = _pick(rng, ['float64', 'float64', 'float64', 'float64', 'int64', 'float32'])
@@ -1359,15 +1587,17 @@ def xk_type(xk):
 # ------------------------------------------------------------------ driver ---
 def plan(tier, seed):
     if tier == 'quick':
-        return [{'series': 125, 'filters': 60, 'bins': 30} for _ in range(16)]
-    return [{'series': 6250, 'filters': 2500, 'bins': 1200} for _ in range(16)]
+        return [{'series': 125, 'filters': 60, 'bins': 30, 'tie_rounds': 1} for _ in range(16)]
+    return [{'series': 6250, 'filters': 2500, 'bins': 1200, 'tie_rounds': 25} for _ in range(16)]
 
 
 def requirements(tier):
     k = 1 if tier == 'quick' else 40
     return {
         'events': {'find_plateaus': 1200 * k, 'collapse_plateaus': 1200 * k, 'filter_in_phase': 1200 * k},
-        'counters': {'filter.elements_decided': 10000 * k},
+        'counters': {'filter.elements_decided': 10000 * k,
+                     'find.judged_with_coordinate_ties': 2500 if tier == 'quick' else 60000,
+                     'find.judged_with_nan_data': 500 if tier == 'quick' else 12000},
         'forced': [
             'slope == atol exactly', 'slope == atol + 1 ulp', 'slope == atol - 1 ulp',
             'atol in a scaled unit', 'min_n_points = 1', 'min_n_points = n', 'min_n_points as Variable',
@@ -1385,6 +1615,18 @@ def requirements(tier):
             'aux coordinate of non-numeric dtype', 'aux coordinate with variances',
             'per-point mask carried', 'mask named like the output or data dimension',
             'scalar coordinate carried', 'scalar mask carried',
+            'coordinate tie with equal data (0/0 slope: no break)',
+            'coordinate tie with different data (infinite slope: a break)',
+            '0/0 slope next to an infinite slope',
+            'coordinate tie at the very start', 'coordinate tie at the very end', 'coordinate tie in the middle',
+            'several coordinate ties in a row', 'all coordinate values equal',
+            'coordinate tie in a float64 coordinate', 'coordinate tie in a float32 coordinate',
+            'coordinate tie in a int64 coordinate', 'coordinate tie in a datetime64 coordinate',
+            '0/0 slope in a float64 coordinate', '0/0 slope in a float32 coordinate',
+            '0/0 slope in a int64 coordinate', '0/0 slope in a datetime64 coordinate',
+            'NaN slope inside a returned plateau', 'plateau reaching min_n_points only across a NaN slope',
+            'NaN data value inside a series', 'NaN data value at a coordinate tie',
+            'infinite data value inside a series',
         ],
     }
 
@@ -1406,7 +1648,10 @@ def run(shard, ctx):
         for i in range(shard['series']):
             rng = stream(0, i)
             da, kw, meta = gen_series(rng)
-            # attachments come from a stream of their own: the series and tolerances stay what they were
+            # repeated entries / non-finite readings and attachments come from streams of their own: the
+            # series and tolerances stay what they were
+            da, ties = inject_ties(stream(5, i), da)
+            ctx.count('ties_injected:' + ties)
             da, kw, deco = decorate(stream(3, i), da, kw)
             ctx.count('attachments:' + deco)
             origin['v'] = 'direct'
@@ -1461,6 +1706,21 @@ def run(shard, ctx):
                     collapse_plateaus(plateaus, coord=cdim)
                 except Exception:  # noqa: BLE001
                     pass
+        for rnd in range(shard.get('tie_rounds', 1)):
+            for da, kw, label in tie_cases(stream(6, rnd)):
+                ctx.count('tie_case:' + label)
+                origin['v'] = 'direct'
+                plateaus = None
+                try:
+                    plateaus = find_plateaus(da, **kw)
+                except Exception:  # noqa: BLE001  (judged by the monitor)
+                    pass
+                if plateaus is not None:
+                    origin['v'] = 'pipeline'
+                    try:
+                        collapse_plateaus(plateaus, coord=da.dim)
+                    except Exception:  # noqa: BLE001
+                        pass
         origin['v'] = 'direct'
         for i in range(shard['filters']):
             da, ref, rtol = gen_frequencies(stream(1, i))
